@@ -31,6 +31,17 @@ PRIMES = [2, 3, 5, 7, 11, 13, 17, 19, 23, 29, 31, 37, 41, 43, 47]
 VARS = {'va': 53, 'vb': 59, 'v_c': 61, 'rate_x': 67}
 CELLS = {'A1': 71, 'B2': 73, '$C$3': 79, 'D$4': 83, '$E5': 89}
 
+# variables bound to error VALUES (leaves of C04's own trees only): with two of them under one operator the tree's value is
+# the error met first in evaluation order - the left one
+ERRVARS = {'e_na': '#N/A', 'e_num': '#NUM!', 'e_ref': '#REF!'}
+_ERRS = [False]          # are error leaves generated?  (switched on by this plugin's cases() only)
+
+
+def errvals():
+    e = fx._xlerror()
+    return dict((k, e.from_message(c)) for k, c in ERRVARS.items())
+
+
 _tp = [None]
 _rp = [None]
 
@@ -47,6 +58,8 @@ def real_parser():
         import hotxlfp
         p = hotxlfp.Parser()
         for k, v in VARS.items():
+            p.set_variable(k, v)
+        for k, v in errvals().items():
             p.set_variable(k, v)
         # the host resolves references by evaluating further formulas ON THE SAME PARSER while the outer
         # evaluation is in progress (a spreadsheet whose cells hold formulas): leaves are re-entrant
@@ -68,12 +81,14 @@ def real_parser():
     return _rp[0]
 
 
-ENV = fx.env_wire(variables=VARS, fns={'ID': '(first)'}, cells={k.upper(): v for k, v in CELLS.items()})
+ENV = fx.env_wire(variables=dict(VARS, **errvals()), fns={'ID': '(first)'}, cells={k.upper(): v for k, v in CELLS.items()})
 
 
 # ------------------------------------------------------------------ generation
 
 def leaf(rng, ints_only=False):
+    if _ERRS[0] and rng.random() < 0.05:
+        return ('var', [rng.choice(sorted(ERRVARS))])
     r = rng.random()
     if r < 0.45 or ints_only and r < 0.8:
         return ('num', 'int', str(rng.choice(PRIMES)), '')
@@ -149,7 +164,7 @@ def float_exact(t):
                     return False
                 if v.denominator == 1 and abs(v.numerator) >= 2 ** 53:
                     return False
-    except (Div0, OverflowError, AssertionError):
+    except (ErrVal, OverflowError, AssertionError):
         return False
     return True
 
@@ -296,8 +311,16 @@ def add_space(rng, formula):
 
 # ------------------------------------------------------------------ exact evaluation
 
-class Div0(Exception):
-    pass
+class ErrVal(Exception):
+    """the tree's value is this error (the first one met in evaluation order)"""
+    def __init__(self, code):
+        Exception.__init__(self, code)
+        self.code = code
+
+
+class Div0(ErrVal):
+    def __init__(self):
+        ErrVal.__init__(self, '#DIV/0!')
 
 
 def exact(t):
@@ -318,6 +341,8 @@ def exact(t):
         if form == 'pow':
             return Fraction(int(a) ** int(b))
     if k == 'var':
+        if t[1][0] in ERRVARS:
+            raise ErrVal(ERRVARS[t[1][0]])
         return Fraction(VARS[t[1][0]])
     if k == 'cell':
         for lab, v in CELLS.items():
@@ -369,8 +394,8 @@ def text(v):
 
 def same(rec, expected):
     """does the record returned by parse hold the expected exact value?"""
-    if expected == 'div0':
-        return rec['error'] == '#DIV/0!' and rec['result'] is None
+    if isinstance(expected, tuple) and expected[0] == 'err':
+        return rec['error'] == expected[1] and rec['result'] is None
     if rec['error'] is not None:
         return False
     r = rec['result']
@@ -398,9 +423,13 @@ def cases(rng, ctx):
               '1=1=1', '10/4', '.5+.25', '50%*4', '2^3+1', 'va+vb*v_c', 'A1*b2-$c$3', 'ID(2+3)*4', '1-(2-3)', '1/(2/4)',
               '2*(3+4)', '(2*3)+4', '1+2+3+4', '1*2*3*4', '7-4+2', '8/2*3', '1+-2', '3*(-2)', '1<>2', '1>=1', '1<=0']:
         out.append({'kind': 'formula', 'f': f})
-    for _ in range(n):
-        t = gen_top(rng, rng.randrange(1, maxd + 1))
-        out.append({'kind': 'tree', 't': t, 'ws': rng.randrange(1 << 30)})
+    _ERRS[0] = True
+    try:
+        for _ in range(n):
+            t = gen_top(rng, rng.randrange(1, maxd + 1))
+            out.append({'kind': 'tree', 't': t, 'ws': rng.randrange(1 << 30)})
+    finally:
+        _ERRS[0] = False
     if thorough:
         # every tree with up to 3 binary operators over one representative per level (+,-,*,/,<,&-free), distinct leaves
         ops = ['+', '-', '*', '/', '<']
@@ -471,7 +500,7 @@ def fragile(t):
         if s[0] == 'bin' and s[1] in ('=', '<>', '<', '>', '<=', '>='):
             try:
                 a, b = exact(s[2]), exact(s[3])
-            except Div0:
+            except ErrVal:
                 continue
             if isinstance(a, Fraction) and isinstance(b, Fraction) and not isinstance(a, bool) and not isinstance(b, bool):
                 if abs(a - b) <= Fraction(1, 10 ** 9) * max(1, abs(a), abs(b)) and not float_exact(s):
@@ -504,8 +533,8 @@ def oracle(c, impl_ans):
         return None
     try:
         expected = exact(t)
-    except Div0:
-        expected = 'div0'
+    except ErrVal as e:
+        expected = ('err', e.code)
     for f, tree, rec in impl_ans:
         if not same(rec, expected):
             return 'formula %r evaluates to %r; the usual reading of its tree gives %r (renderings: %r)' % (
